@@ -149,6 +149,8 @@ def gen_spec(rng, quick=True, force=None):
     ids = rng.sample([0, 1, 2, 3, 4, 5, 7, 12, 99, 1000, 9999], nds)
     if rng.random() < 0.7:
         ids = list(range(nds))
+    if nds >= 2 and rng.random() < 0.12:
+        ids[rng.randrange(1, nds)] = ids[0]      # two datasets with one ID (files merged from two sources), each with its own cell
     for i in range(nds):
         nl = rng.choice([1, 3, 8, 20, 63, 64])
         d = {'id': ids[i], 'proj': word(rng, rng.choice([1, 5, nl])), 'crys': word(rng, rng.choice([1, 7, nl])),
